@@ -93,7 +93,8 @@ func checkRoomIDIsValid(roomID string) error {
 	return nil
 }
 
-// checkNoDuplicateKeys returns an error if the event repeats one of its top-level keys.
+// checkNoDuplicateKeys returns an error if the event repeats one of its top-level keys,
+// or has a top-level key that differs from an event field only in letter case.
 // The JSON decoders in use disagree on which of the values counts (a later null
 // does not overwrite an earlier string in encoding/json, while the raw fields kept
 // for redaction hold the last value), so the same event would read differently
@@ -107,9 +108,27 @@ func checkNoDuplicateKeys(eventJSON []byte) error {
 			return false
 		}
 		seen[key.String()] = struct{}{}
+		// encoding/json also matches the fields of the event structs case-insensitively
+		// (Unicode folding included, so "\u017fender" is "sender"): a key that merely
+		// looks like an event field would be read as that field, and be written back
+		// under the field's name by the redaction algorithm.
+		for _, field := range eventFieldNames {
+			if key.String() != field && strings.EqualFold(key.String(), field) {
+				err = fmt.Errorf("gomatrixserverlib: key %q in event is ambiguous with %q", key.String(), field)
+				return false
+			}
+		}
 		return true
 	})
 	return err
+}
+
+// eventFieldNames are the top-level keys that the event structs and the redaction
+// algorithms decode.
+var eventFieldNames = []string{
+	"auth_events", "content", "depth", "event_id", "hashes", "membership", "msc4354_sticky", "origin",
+	"origin_server_ts", "prev_events", "prev_state", "redacts", "room_id", "sender", "signatures",
+	"state_key", "sticky", "type", "unsigned",
 }
 
 // checkSignaturesShape returns an error unless the "signatures" of the event, if any,
